@@ -412,7 +412,7 @@ def shrink(case):
         yield Case(_line(nd), nd, case.tags)
 
 
-NOT_READY = True
+NOT_READY = False
 TECHNIQUE = ("Lean 4 proof: each derived query, written the way the Python is written (parent walks with fuel, the filtered "
              "pre-order, the nonlocal-diameter recursion, the index arithmetic of go_to), is proved equal to its definition "
              "on addresses for every tree and node; the model is tied to the code by differential testing on every node / "
